@@ -34,7 +34,7 @@ SEEDS = [0, 1, 7, 42, 2 ** 31 - 1, 123456789]
 
 def cases(tier, seed):
     k = 130 if tier == "quick" else 5000
-    return [("compose", i) for i in range(k)] + [("structure", i) for i in range(k)] + [("reference", i) for i in range(k)]
+    return [("compose", i) for i in range(k)] + [("structure", i) for i in range(k)] + [("reference", i) for i in range(k)] + [("reference_control", i) for i in range(k // 2)]
 
 
 def _quantiles(rng):
@@ -123,6 +123,8 @@ def run_case(cls, key, seed, ctx):
         return run_compose(ctx, rng, MetricFrame)
     if cls == "reference":
         return run_reference(ctx, rng, MetricFrame)
+    if cls == "reference_control":
+        return run_reference_control(ctx, rng, MetricFrame)
     return run_structure(ctx, rng, MetricFrame)
 
 
@@ -348,3 +350,96 @@ def run_reference(ctx, rng, MetricFrame):
             ctx.check(gv in bgci.index and br[0] - 1e-9 <= float(bgci[gv]) <= br[1] + 1e-9,
                       "ci_value_outside_order_statistics_of_resamples:by_group", quantile=q, group=gv,
                       got=repr(bgci[gv]) if gv in bgci.index else "missing", bracket=br, per_resample=bystats[gv][:12], wit=wit)
+
+
+def run_reference_control(ctx, rng, MetricFrame):
+    """Reference bootstrap with one control feature: every statistic is per control stratum."""
+    from vf.refs import rates as R
+
+    n = int(gen.pick(rng, [6, 9, 14, 22, 30]))
+    g = ["g%d" % i for i in gen.skewed_labels(rng, n, int(rng.integers(2, 4)))]
+    c = ["c%d" % i for i in gen.skewed_labels(rng, n, 2)]
+    nb = int(gen.pick(rng, [2, 5, 12, 30]))
+    qs = _quantiles(rng)
+    rs = int(gen.pick(rng, SEEDS + [int(rng.integers(0, 2 ** 31))]))
+    vals = np.round(rng.uniform(0.5, 5.0, size=n), 3)
+    w = np.round(rng.uniform(0.2, 3.0, size=n), 2)
+    rec = RecordingMetric("rec", 0.0, [])
+    mf = MetricFrame(metrics={"rec": rec, "wm": wmean}, y_true=list(range(n)), y_pred=vals.tolist(), sensitive_features={"sf": g},
+                     control_features={"cf": c}, sample_params={"wm": {"sample_weight": w.tolist()}}, n_boot=nb, ci_quantiles=qs, random_state=rs)
+    wit = {"n": n, "groups": g, "control": c, "values": vals.tolist(), "weights": w.tolist(), "n_boot": nb, "quantiles": qs, "random_state": rs}
+    ctx.mark(["reference_control", n, sorted(pd.Series(list(zip(c, g))).value_counts().tolist()), nb, len(qs)], nb >= 2, sample=wit)
+    # every evaluation of the frame hands the metric 2n rows: the control strata (n rows) and then the cells (n rows)
+    evals, cur, tot = [], [], 0
+    for r_ in rec.log:
+        cur.append(list(r_["y_true"]))
+        tot += len(r_["y_true"])
+        if tot == 2 * n:
+            evals.append(cur)
+            cur, tot = [], 0
+        elif tot > 2 * n:
+            ctx.ev("resample_history_not_parsed")
+            return
+    if tot != 0 or len(evals) != nb + 1:
+        ctx.ev("resample_history_not_parsed")
+        return
+    resamples = []
+    for ev_ in evals[1:]:
+        rows, acc = [], 0
+        for part in ev_:
+            if acc >= n:
+                break
+            rows += part
+            acc += len(part)
+        if acc != n:
+            ctx.ev("resample_history_not_parsed")
+            return
+        resamples.append(rows)
+    cl, gl = sorted(set(c)), sorted(set(g))
+
+    def wm(rr):
+        return float(np.dot(vals[rr], w[rr]) / w[rr].sum())
+    stats = {(k, cv): [] for cv in cl for k in ("overall", "group_min", "group_max", "difference:between_groups", "difference:to_overall",
+                                                  "ratio:between_groups", "ratio:to_overall")}
+    cellstats = {(cv, gv): [] for cv in cl for gv in gl}
+    for rows in resamples:
+        for cv in cl:
+            rc = [r_ for r_ in rows if c[r_] == cv]
+            per = {}
+            for gv in gl:
+                rr = [r_ for r_ in rc if g[r_] == gv]
+                per[gv] = wm(rr) if rr else math.nan
+                cellstats[(cv, gv)].append(per[gv])
+            pv = [v for v in per.values() if not isnan(v)]
+            if not rc:
+                for k in ("overall", "group_min", "group_max", "difference:between_groups", "difference:to_overall", "ratio:between_groups", "ratio:to_overall"):
+                    stats[(k, cv)].append(math.nan)
+                continue
+            o = wm(rc)
+            stats[("overall", cv)].append(o)
+            stats[("group_min", cv)].append(min(pv))
+            stats[("group_max", cv)].append(max(pv))
+            for m in ("between_groups", "to_overall"):
+                stats[("difference:" + m, cv)].append(R.agg_difference(pv, o, m))
+                stats[("ratio:" + m, cv)].append(R.agg_ratio(pv, o, m))
+    acc = _accessors(mf)
+    for qi, q in enumerate(qs):
+        for (what, cv), st in stats.items():
+            br = _bracket(st, q)
+            df = acc[what][0][qi]
+            ctx.ev("ci_values_bracketed")
+            if br is None:
+                continue
+            ok = cv in df.index and br[0] - 1e-9 <= float(df.loc[cv, "wm"]) <= br[1] + 1e-9
+            ctx.check(ok, "ci_value_outside_order_statistics_of_resamples:control:" + what, quantile=q, stratum=cv,
+                      got=repr(df.loc[cv, "wm"]) if cv in df.index else "missing", bracket=br, per_resample=st[:12], wit=wit)
+        bg = acc["by_group"][0][qi]
+        for (cv, gv), st in cellstats.items():
+            br = _bracket(st, q)
+            present = (cv, gv) in bg.index
+            if br is None:
+                ctx.check((not present) or isnan(bg.loc[(cv, gv), "wm"]), "cell_absent_from_every_resample_has_a_value", cell=[cv, gv], wit=wit)
+                continue
+            ctx.ev("ci_values_bracketed")
+            ctx.check(present and br[0] - 1e-9 <= float(bg.loc[(cv, gv), "wm"]) <= br[1] + 1e-9, "ci_value_outside_order_statistics_of_resamples:control:by_group",
+                      quantile=q, cell=[cv, gv], got=repr(bg.loc[(cv, gv), "wm"]) if present else "missing", bracket=br, per_resample=st[:12], wit=wit)
